@@ -77,7 +77,7 @@ AddIssue(r, c, iss) ==
 
 SetDest(r, p, v) == [r EXCEPT !.dest = (p :> v) @@ r.dest]
 
-CbId(f, kind, i) == PathStr(f.dp) \o "#" \o kind \o ToString(i)
+CbId(f, kind, i) == PathStr(f.ip) \o "#" \o kind \o ToString(i)
 
 Running == ~done /\ stack # <<>>
 At(k, pc) == Running /\ Top.node.k = k /\ Top.pc = pc
@@ -137,14 +137,13 @@ TestResult(k) ==
           ELSE WithTop(r1, [f EXCEPT !.pc = "tests", !.i = f.i + 1]))
 
 \* deferred PostTransforms run only if the execution has no issue at that moment (C12)
-PTGate ==
+PTGate(run) ==
   /\ Running /\ Top.pc = "ptgate"
-  /\ LET f == Top IN
-     \/ Commit(IF issues = <<>> /\ f.node.pts # <<>>
-               THEN WithTop(Cur, [f EXCEPT !.pc = "pts", !.i = 1])
-               ELSE WithTop(Cur, [f EXCEPT !.pc = "done"]))
-     \/ /\ SwSoftPT = "any" /\ f.soft /\ issues = <<>> /\ f.node.pts # <<>>
-        /\ Commit(WithTop(Cur, [f EXCEPT !.pc = "done"]))
+  /\ LET f == Top
+         can == issues = <<>> /\ f.node.pts # <<>>
+     IN /\ (run = can) \/ (SwSoftPT = "any" /\ f.soft /\ can /\ ~run)
+        /\ Commit(IF run THEN WithTop(Cur, [f EXCEPT !.pc = "pts", !.i = 1])
+                  ELSE WithTop(Cur, [f EXCEPT !.pc = "done"]))
 
 PTInvoke ==
   /\ Running /\ Top.pc = "pts"
@@ -278,7 +277,7 @@ NodeDone ==
 Next ==
   \/ PrimStart
   \/ \E k \in {"prim", "struct", "slice"} : TestInvoke(k) \/ TestResult(k)
-  \/ PTGate \/ PTInvoke \/ PTResult
+  \/ (\E run \in BOOLEAN : PTGate(run)) \/ PTInvoke \/ PTResult
   \/ StructStart \/ (\E k \in 1..8 : StructField(k)) \/ StructFieldsDone
   \/ SliceStart \/ SliceElem
   \/ PtrStart
